@@ -488,6 +488,9 @@ def read_dump(path, **kw):
 # both-direction, byte-exact correspondence on a batch of triangles (used by C05 and C06)
 # --------------------------------------------------------------------------------------
 
+FILE_HOOK = None      # C06 sets this: called as FILE_HOOK(ctx, case, file_bytes, dump_of_from_binary) for every file written
+
+
 def roundtrip_batch(ctx, drv, triangles, scratch, tag="rt", compressed=True):
     """triangles: list of (Triangle, desc). Phase 1: implementation writes/reads, model encodes and
     decodes the implementation's file, Spec on what the implementation read back. Phase 2: the
@@ -517,6 +520,8 @@ def roundtrip_batch(ctx, drv, triangles, scratch, tag="rt", compressed=True):
             variants.append(("from_binary(.tribc, compress=True)", read_dump(pc, compress=True)))
             variants.append(("from_binary(.trib, compress=False)", read_dump(p, compress=False)))
         ok_first = d1[0] == "ok"
+        if FILE_HOOK is not None:
+            FILE_HOOK(ctx, case, B, d1)
         reqs.append({"op": "case", "cells": cells, "file": B.hex(), "impl": d1[1] if ok_first else None})
         infos.append((tri, desc, cells, B, variants))
     outs = drv.run(reqs)
@@ -726,9 +731,12 @@ def repr_stream(ctx, drv, scratch, n, tag="md-repr"):
         if st != "ok":
             ctx.fail("to_binary raised on a triangle inside the documented limits", {"cells": wire}, {"error": B})
             continue
-        reqs.append({"op": "pycase", "cells": wire, "file": B.hex()})
-        infos.append((wire, B, desc))
-    for (wire, B, desc), out in zip(infos, drv.run(reqs)):
+        # (c) read-back oracle for NON-coherent triangles (theorem C05.decode_encodePy_firstRepr): every cell comes back
+        # with the metadata representation of the first cell of its run of Python-equal metadata
+        d = dump_of(xcall(Triangle.from_binary, scratch.put(B, ".trib")))
+        reqs.append({"op": "pycase", "cells": wire, "file": B.hex(), "impl": d[1] if d[0] == "ok" else None})
+        infos.append((wire, B, desc, d))
+    for (wire, B, desc, d), out in zip(infos, drv.run(reqs)):
         case = {"cells": wire}
         ctx.case(digest="repr" + json.dumps(wire, sort_keys=True), nontrivial=True,
                  sample={"op": tag, **desc, "metadata_changes": out["changes"], "records_in_file": out["fileRecords"]})
@@ -737,6 +745,13 @@ def repr_stream(ctx, drv, scratch, n, tag="md-repr"):
         if not out["wf"]:
             ctx.count(f"{tag}/outside-wf")
             continue
+        ctx.count(f"{tag}/read-back changes a representation={out.get('firstReprChanged')}")
+        if d[0] != "ok":
+            ctx.fail("from_binary raised / changed a type on a file written by to_binary (==-equal metadata in different "
+                     "representations)", case, {"error": d[1]})
+        elif out.get("readBackSpec") is False:
+            ctx.fail("read-back of ==-equal metadata in different representations: every cell must come back with the "
+                     "representation of the first cell of its run (and everything else identical)", case, {"read": d[1]})
         if not out["spec"]:
             ctx.fail("metadata records in the file != metadata changes along the cells (a record only when metadata changes)",
                      {**case, "file": B.hex()}, {"records_in_file": out["fileRecords"], "metadata_changes": out["changes"]})
